@@ -10,6 +10,7 @@ import re
 
 from .. import build, facts
 from ..build import AnalysisBroken
+from ..effects import classify_use
 from . import C01
 
 UNITS = 'all'
@@ -467,6 +468,55 @@ def rule_loop_progress(prog, run, rid):
     return n_loops
 
 
+def rule_sibling_order(prog, run, rid):
+    """inside a per-child dispatch (a loop over DOM children, or parseExtension which is called once per child) no arm stores into a member a value read
+    from a *different* member that another arm of the same dispatch writes: the result would depend on the order of the siblings, and since the serializer
+    emits them in one fixed order, parse(serialize(parse(x))) differs from parse(x) for one of the two input orders"""
+    n = 0
+    for f in prog.fns.values():
+        if f.is_lambda or f.entry is None or f.raw.get('dependent'):
+            continue
+        if not (f.name.startswith('parse') or f.name == 'fromDom'):
+            continue
+        per_child = f.name == 'parseExtension'
+        loops = set()
+        if not per_child:
+            dom = f.dom()
+            for b in f.blocks.values():
+                t = b.get('term')
+                if t and t.get('k') in ('rangefor', 'for', 'while') and b['succs'] and b['succs'][0] is not None:
+                    loops |= {x for x in f.blocks if ('b', b['succs'][0]) in dom.get(('b', x), set())}
+        writes = {}
+        for i, nd in enumerate(f.nodes):
+            if nd['k'] == 'mem':
+                k, h = classify_use(f, i)
+                if k in ('write', 'addr') and f.pos(i) and (per_child or f.pos(i)[0] in loops):
+                    writes.setdefault(nd['f'], []).append(i)
+        if not writes:
+            continue
+        n += 1
+        run.instance(rid)
+        bad = None
+        for i, nd in f.all_nodes('assign'):
+            l = f.nodes[f.skip(nd['l'])]
+            if l['k'] != 'mem' or not f.pos(i) or not (per_child or f.pos(i)[0] in loops):
+                continue
+            for j in f.walk(nd['r']):
+                m = f.nodes[j]
+                if m['k'] == 'mem' and m['f'] != l['f'] and m['f'] in writes:
+                    other = [w for w in writes[m['f']] if not f.node_dominates(w, i) and not f.node_dominates(i, w)]
+                    if other:
+                        bad = (i, l['f'].split('::')[-1], m['f'].split('::')[-1], other[0])
+        if bad:
+            i, g, src, w = bad
+            run.violation(rid, '%s#sibling-order#%s<-%s' % (f.qname, g, src), f.loc(i),
+                          'while one child element is parsed, %s is set from %s, which the arm of a different child element writes (%s): the parsed object depends on the '
+                          'order of the siblings, so re-parsing the library\'s own output (fixed order) gives a different object' % (g, src, f.loc(w)))
+        else:
+            run.ok(rid, f.loc(), '%s: no member is derived from a sibling element\'s member inside the per-child dispatch' % f.display()[:60], nontrivial=False)
+    return n
+
+
 def run(prog, run):
     run.explanation = ('Structural safety clauses for every parser: scalar members of parsed records are definitely initialised at every creation site; '
                        'integers become enums only behind a check; sizes, indices and loop bounds derived from attributes/text/wire integers are '
@@ -498,8 +548,12 @@ def run(prog, run):
                             'the loop head (continue included)', floor=18)
     run.extra['dom_loops'] = rule_loop_progress(prog, run, r5)
 
+    r6 = run.rule('C02.R6', 'parsing does not depend on the order of sibling elements through value flow: inside a per-child dispatch no member is set from a '
+                            'different member written by another child\'s arm', floor=40)
+    run.extra['per_child_dispatchers'] = rule_sibling_order(prog, run, r6)
+
     # positive controls: the zero-expected rules must fire on controls/c02_controls.cpp
-    rc = run.rule('C02.controls', 'positive controls: R1, R2, R3 and R5 each report their seeded construct in controls/c02_controls.cpp', floor=4)
+    rc = run.rule('C02.controls', 'positive controls: R1, R2, R3, R5 and R6 each report their seeded construct in controls/c02_controls.cpp', floor=5)
     cpath = os.path.join(build.VERIF, 'controls', 'c02_controls.cpp')
     cprog = facts.Program(build.extract_control(cpath))
     bad = [u for u in cprog.units.values() if u.bad_diags()]
@@ -508,7 +562,8 @@ def run(prog, run):
     for name, fn, want in (('R1', lambda s, r: rule_init(cprog, s, r, control=True), 'never_set'),
                            ('R2', lambda s, r: rule_enum_casts(cprog, s, r), 'cast_unchecked'),
                            ('R3', lambda s, r: rule_taint(cprog, s, r), 'taint_'),
-                           ('R5', lambda s, r: rule_loop_progress(cprog, s, r), 'loop_no_progress')):
+                           ('R5', lambda s, r: rule_loop_progress(cprog, s, r), 'loop_no_progress'),
+                           ('R6', lambda s, r: rule_sibling_order(cprog, s, r), 'parseOrderDependent')):
         sub = type(run)(run.prop, run.tier, run.seed)
         rr = sub.rule('x', 'x')
         fn(sub, rr)
